@@ -309,6 +309,7 @@ func (e *Engine) verifyFunction(fn *ssa.Function, safety bool) (fr *Frame, err e
 	}
 	nh := len(f.hyps)
 	exit, results := f.run(st, args, bindings)
+	f.exitResults = results
 	// vacuity: the preconditions + type facts must be satisfiable
 	vo := &Obligation{ID: f.name + "#vacuity:requires", Fn: f.name, Kind: "vacuity", Label: "requires", Goal: tFalse(), PC: tTrue(), ctx: f, nHyps: nh, Cover: true, Text: "preconditions satisfiable"}
 	vo.Props = f.supportProps()
